@@ -218,6 +218,67 @@ func beFold(ph *ssa.Phi, base ssa.Value) (lo, n int64, ok bool) {
 	return l, h - l, true
 }
 
+// beDescLoopStore: st is header[i] = byte(v) inside `for i := hi; i >= lo; i-- { …; v >>= 8 }` with v starting as src:
+// the bytes of src, least significant last — big-endian in header[lo : hi+1].
+func beDescLoopStore(st *ssa.Store, ia *ssa.IndexAddr) (lo, n int64, src ssa.Value, ok bool) {
+	pi, isPhi := stripIntConv(ia.Index).(*ssa.Phi)
+	if !isPhi || len(pi.Edges) != 2 {
+		return 0, 0, nil, false
+	}
+	hi, haveHi, dec := int64(0), false, false
+	for _, e := range pi.Edges {
+		if k, isK := intConst(e); isK {
+			hi, haveHi = k, true
+			continue
+		}
+		if d := symAff(e, 0).add(affSym(pi), -1); d.isConst() && d.C == -1 {
+			dec = true
+		}
+	}
+	if !haveHi || !dec {
+		return 0, 0, nil, false
+	}
+	lowOK := false
+	for _, a := range AtomsAt(st) {
+		if a.Kind == "cmp" && a.Op == token.LEQ && stripIntConv(a.Y) == ssa.Value(pi) {
+			if k, isK := intConst(a.X); isK {
+				lo, lowOK = k, true
+			}
+		}
+		if a.Kind == "cmp" && a.Op == token.LSS && stripIntConv(a.Y) == ssa.Value(pi) {
+			if k, isK := intConst(a.X); isK {
+				lo, lowOK = k+1, true
+			}
+		}
+	}
+	if !lowOK || hi < lo {
+		return 0, 0, nil, false
+	}
+	v, sh, okB := byteOf(st.Val)
+	if !okB || sh != 0 {
+		return 0, 0, nil, false
+	}
+	pv, isPhiV := v.(*ssa.Phi)
+	if !isPhiV || len(pv.Edges) != 2 {
+		return 0, 0, nil, false
+	}
+	shifts := false
+	for _, e := range pv.Edges {
+		if bo, isB := stripIntWiden(e).(*ssa.BinOp); isB && bo.Op == token.SHR && stripIntWiden(bo.X) == ssa.Value(pv) {
+			if k, isK := intConst(bo.Y); isK && k == 8 {
+				shifts = true
+				continue
+			}
+		}
+		src = stripIntWiden(e)
+	}
+	n = hi - lo + 1
+	if !shifts || src == nil || (n != 2 && n != 4 && n != 8) {
+		return 0, 0, nil, false
+	}
+	return lo, n, src, true
+}
+
 // beLoopStore: st is header[K+i] = byte(src >> (8*(n-1-i))) inside a loop i = 0 … n-1 (i < n guard, i starts at 0).
 func beLoopStore(st *ssa.Store, ia *ssa.IndexAddr) (lo, n int64, src ssa.Value, ok bool) {
 	idx := symAff(ia.Index, 0)
